@@ -61,11 +61,15 @@ def _real_incompat(vals):
     return verify._incompat(info('r'), info('i'))
 
 
-def _mk_src(name, req, pos, va, kw, self_=False):
+def _mk_src(name, req, pos, va, kw, self_=False, kwonly=False):
     ps = (['self'] if self_ else []) + ['p%d' % j for j in range(req)] + \
          ['p%d=None' % j for j in range(req, pos)]
     if va:
         ps.append('*va')
+    if kwonly:              # a keyword-only parameter with a default: never needed by a positional call shape
+        if not va:
+            ps.append('*')
+        ps.append('strict=False')
     if kw:
         ps.append('**kw')
     return 'def %s(%s): pass\n' % (name, ', '.join(ps))
@@ -95,13 +99,13 @@ def check_pair(vals, mode):
     from zope.interface.verify import verifyObject, verifyClass
     from zope.interface.exceptions import BrokenMethodImplementation, Invalid
     ns = {}
-    exec(_mk_src('m', vals['r_req'], vals['r_pos'], vals['r_va'], vals['r_kw']), ns)
+    exec(_mk_src('m', vals['r_req'], vals['r_pos'], vals['r_va'], vals['r_kw'], kwonly=vals.get('r_ko', False)), ns)
     I = InterfaceClass('I', (Interface,), {'m': fromFunction(ns['m'], name='m')})
     ns2 = {}
     # '-va' modes: a method whose implied self is collected by its *args (def m(*va)): no explicit self parameter
     self_in_va = mode.endswith('-va')
     mode = mode.replace('-va', '')
-    exec(_mk_src('m', vals['i_req'], vals['i_pos'], vals['i_va'], vals['i_kw'], self_=(mode != 'attr' and not self_in_va)), ns2)
+    exec(_mk_src('m', vals['i_req'], vals['i_pos'], vals['i_va'], vals['i_kw'], self_=(mode != 'attr' and not self_in_va), kwonly=vals.get('i_ko', False)), ns2)
     impl = ns2['m']
     if mode == 'attr':       # plain function stored on the instance
         K = implementer(I)(type('K', (object,), {}))
@@ -127,8 +131,8 @@ def check_pair(vals, mode):
         got_ok = False
     if got_ok != expected_ok:
         raise Violation('%s: interface %s implementation %s: verify says %s, binding every admitted call shape says %s' % (
-            mode, _mk_src('m', vals['r_req'], vals['r_pos'], vals['r_va'], vals['r_kw']).strip(),
-            _mk_src('m', vals['i_req'], vals['i_pos'], vals['i_va'], vals['i_kw']).strip(), got_ok, expected_ok),
+            mode, _mk_src('m', vals['r_req'], vals['r_pos'], vals['r_va'], vals['r_kw'], kwonly=vals.get('r_ko', False)).strip(),
+            _mk_src('m', vals['i_req'], vals['i_pos'], vals['i_va'], vals['i_kw'], kwonly=vals.get('i_ko', False)).strip(), got_ok, expected_ok),
             signature='C17:arity:%s' % ('accepts-nonbinding' if got_ok else 'rejects-binding'))
 
 
@@ -295,12 +299,12 @@ def make_e_pairs(params, part, nparts):
         c_rreq = pick(r_req, MAXR + 1)
         assume((c_mode * (MAXR + 1) + c_rreq) % nparts == part)
         c_ropt = pick(r_opt, MAXO + 1)
-        c_rf = pick(r_flags, 4)
+        c_rf = pick(r_flags, 8)
         c_ireq = pick(i_req, MAXR + 1)
         c_iopt = pick(i_opt, MAXO + 1)
-        c_if = pick(i_flags, 4)
-        vals = dict(r_req=c_rreq, r_pos=c_rreq + c_ropt, r_va=bool(c_rf & 1), r_kw=bool(c_rf & 2),
-                    i_req=c_ireq, i_pos=c_ireq + c_iopt, i_va=bool(c_if & 1), i_kw=bool(c_if & 2))
+        c_if = pick(i_flags, 8)
+        vals = dict(r_req=c_rreq, r_pos=c_rreq + c_ropt, r_va=bool(c_rf & 1), r_kw=bool(c_rf & 2), r_ko=bool(c_rf & 4),
+                    i_req=c_ireq, i_pos=c_ireq + c_iopt, i_va=bool(c_if & 1), i_kw=bool(c_if & 2), i_ko=bool(c_if & 4))
         m = ('attr', 'method', 'class', 'method-va', 'class-va')[c_mode]
         assume(c_mode < 3 or (vals['i_va'] and vals['i_pos'] == 0))
         reached((c_mode, c_rreq, c_ropt, c_rf, c_ireq, c_iopt, c_if), dict(mode=m, **vals))
@@ -425,8 +429,8 @@ HARNESSES = [
             tiers=dict(quick=dict(budget_s=120, parts=9, params=dict(max_req=2, max_opt=2)),
                        thorough=dict(budget_s=900, parts=12, params=dict(max_req=3, max_opt=3))),
             encoded=_ENC,
-            bounds='required<=2(3), optional<=2(3), *args, **kw on both sides (1296 pairs quick) x {function attribute, bound method, verifyClass, and methods whose self is collected by *args}',
-            outside='keyword-only/positional-only parameters, builtins, parameter names',
+            bounds='required<=2(3), optional<=2(3), *args, **kw, a defaulted keyword-only parameter on both sides (5184 pairs quick) x {function attribute, bound method, verifyClass, and methods whose self is collected by *args}',
+            outside='required keyword-only and positional-only parameters, builtins, parameter names',
             oracle='inspect.signature(impl).bind on every admitted call shape (arities req..pos, +1/+4 with *args, one foreign keyword with **kw)'),
     Harness('e_errors', make_e_errors, kind='E', impls=('py',),
             tiers=dict(quick=dict(budget_s=60, parts=5), thorough=dict(budget_s=120, parts=5)),
